@@ -12,8 +12,8 @@ CONSTANTS
   MaxRxns = 2
   KChoices <- KPos
   Decades <- EmptySet
-  States <- St5q
-  Steps <- StepsA
+  States <- St5d
+  Steps <- StepsB
   MaxSteps = 2
   StepCap <- Cap1
   EmitDyn = FALSE
